@@ -628,7 +628,7 @@ def skip_present(rep):
         """the list that replaces the request parameter: `param = <list name>`"""
         names = [n.value.id for n in ast.walk(fn) if isinstance(n, ast.Assign)
                  and len(n.targets) == 1 and unparse(n.targets[0]) == param
-                 and isinstance(n.value, ast.Name)]
+                 and isinstance(n.value, ast.Name) and n.value.id != param]
         return names[-1] if names else "cleaned_" + param
 
     lv, le = cleaned_list("vars"), cleaned_list("estimates")
@@ -649,8 +649,10 @@ def skip_present(rep):
     for n, e in sites_e:
         nm = req_name(e)
         conds = [f for f, _ in B.path_conditions(n)]
-        newvars = ("nonempty", "vars") in conds or ("truthy", "vars") in conds
-        estonly = ("not", ("nonempty", "vars")) in conds or ("not", ("truthy", "vars")) in conds
+        vnames = ("vars", lv)          # the cleaned list and the parameter it replaces
+        newvars = any(("nonempty", v) in conds or ("truthy", v) in conds for v in vnames)
+        estonly = any(("not", ("nonempty", v)) in conds or ("not", ("truthy", v)) in conds
+                      for v in vnames)
         if newvars == estonly:
             raise AnalysisError("over_time: cannot tell whether `" + norm_src(n)
                                 + "` is on the new-variables or the estimates-only path")
